@@ -142,14 +142,15 @@ structure Env where
 
 def Env.hex (E : Env) (b : Bytes) : Bytes := Sign.shaHex E.sha256 b
 
-/-- a `CompressionWithLevel` value as (variant index of `Gen.levelVariants`, level) -/
-def variantIdx (name : String) : Nat := Gen.levelVariants.idxOf name
+/-- a `CompressionWithLevel` value as (variant index of `Gen.levelVariants`, level). The indices are written out (string
+comparison does not reduce in the kernel); `C17.comp_variant_table` states that `Gen.levelVariants` — scraped from
+`enum CompressionWithLevel` on every run — lists None, Zstd, Gzip, Xz, Bzip2 in this order -/
 def compVariant : Comp → Nat × Int
-  | .none => (variantIdx "None", 0)
-  | .gzip l => (variantIdx "Gzip", l)
-  | .zstd l => (variantIdx "Zstd", l)
-  | .xz l => (variantIdx "Xz", l)
-  | .bzip2 l => (variantIdx "Bzip2", l)
+  | .none => (0, 0)
+  | .zstd l => (1, l)
+  | .gzip l => (2, l)
+  | .xz l => (3, l)
+  | .bzip2 l => (4, l)
 
 /-! ## `prepare_data` -/
 
@@ -192,77 +193,61 @@ def fileLoop (dirs : List Bytes) (large : Bool) : List (FileE × Bytes) → Nat 
 def fromEntriesOut (recs : List (Nat × IndexData)) (regionTag : Nat) : Out Header :=
   if (recs.length + 1) * 16 ≤ 2147483648 then .ok (fromEntries recs regionTag) else .panic "region-offset-overflow"
 
+/-- an archive step as seen by the `?` that follows it: the sink goes on only after `Ok` -/
+def seqS : Out Unit × PWriter.Sink → Out PWriter.Sink
+  | (.ok (), s) => .ok s
+  | (.err e, _) => .err e
+  | (.panic p, _) => .panic p
+
 /-- `PackageBuilder::prepare_data` on the state `c` with the file contents `fes` (`c.files = fes.map (·.1)` for a state made by
 `run`); returns `(lead, main header, payload)` -/
-def prepareData (E : Env) (c : Cfg) (fes : List (FileE × Bytes)) : Out (Lead × Header × Bytes) :=
-  let lead := leadNew c.name
-  match compressorConstruct E.enc (compVariant c.compression).1 (compVariant c.compression).2 with
-  | .err e => .err e
-  | .panic p => .panic p
-  | .ok () =>
-  match sumU64 (fes.map (·.1.size)) 0 with
-  | .err e => .err e
-  | .panic p => .panic p
-  | .ok combined =>
+def prepareData (E : Env) (c : Cfg) (fes : List (FileE × Bytes)) : Out (Lead × Header × Bytes) := do
+  -- `let mut compressor: Compressor = self.compression.try_into()?`
+  compressorConstruct E.enc (compVariant c.compression).1 (compVariant c.compression).2
+  let combined ← sumU64 (fes.map (·.1.size)) 0
   let large := decide (combined > c.largeFileThreshold)
-  match fileLoop c.directories large fes 0 1 E.sink with
-  | (.err e, _) => .err e
-  | (.panic p, _) => .panic p
-  | (.ok (), s1) =>
-  match PWriter.trailerW s1 with
-  | (.err e, _) => .err e
-  | (.panic p, _) => .panic p
-  | (.ok (), s2) =>
+  let s1 ← seqS (fileLoop c.directories large fes 0 1 E.sink)
+  let s2 ← seqS (PWriter.trailerW s1)                      -- `payload::trailer(&mut archive)?`
   -- `combined_file_sizes.try_into().expect(..)` (u64 → u32) in the record literal
-  if !large && decide (4294967296 ≤ combined) then .panic "size-expect" else
-  match (Timestamp.now E.clock).toOut with
-  | .err e => .err e
-  | .panic p => .panic p
-  | .ok now =>
+  if !large && decide (4294967296 ≤ combined) then .panic "size-expect" else do
+  let now ← (Timestamp.now E.clock).toOut                   -- `Timestamp::now()`
   -- `file_sizes.into_iter().map(u32::try_from).collect::<Result<_, _>>().expect(..)`
-  if !fes.isEmpty && !large && fes.any (fun p => decide (4294967296 ≤ p.1.size)) then .panic "filesizes-expect" else
-  let archive := s2.out                                   -- what the `Sha256Writer` hashed: the bytes the compressor accepted
-  match E.finish archive with
-  | .err e => .err e
-  | .panic p => .panic p
-  | .ok payload =>
-  match fromEntriesOut (records c now (E.hex payload) (E.hex archive)) Gen.IndexTag.RPMTAG_HEADERIMMUTABLE with
-  | .err e => .err e
-  | .panic p => .panic p
-  | .ok hdr => .ok (lead, hdr, payload)
+  if !fes.isEmpty && !large && fes.any (fun p => decide (4294967296 ≤ p.1.size)) then .panic "filesizes-expect" else do
+  -- what the `Sha256Writer` hashed: the bytes the compressor accepted
+  let payload ← E.finish s2.out                             -- `compressor.finish_compression()?`
+  let hdr ← fromEntriesOut (records c now (E.hex payload) (E.hex s2.out)) Gen.IndexTag.RPMTAG_HEADERIMMUTABLE
+  pure (leadNew c.name, hdr, payload)
+
+/-- the archive bytes `prepare_data` has written when it reaches the trailer (what `PAYLOADDIGESTALT` is the digest of):
+the accepted bytes of the sink after the file loop and `payload::trailer`; `none` when a step before that fails -/
+def prepareArchive (E : Env) (c : Cfg) (fes : List (FileE × Bytes)) : Option Bytes :=
+  match sumU64 (fes.map (·.1.size)) 0 with
+  | .ok combined =>
+    match seqS (fileLoop c.directories (decide (combined > c.largeFileThreshold)) fes 0 1 E.sink) with
+    | .ok s1 => (match seqS (PWriter.trailerW s1) with | .ok s2 => some s2.out | _ => none)
+    | _ => none
+  | _ => none
 
 /-- `PackageBuilder::build`: `header_idx_tag.write(&mut header)?` writes into a `Vec` (cannot fail);
 `SignatureHeaderBuilder::new().set_sha256_digest(..).build()?` has no signature to parse (`Sign.sigBuilderBuild … [] _`) -/
-def build (E : Env) (c : Cfg) (fes : List (FileE × Bytes)) : Out Package :=
-  match prepareData E c fes with
-  | .err e => .err e
-  | .panic p => .panic p
-  | .ok (lead, hdr, payload) =>
-    match Sign.sigBuilderBuild (fun _ => none) id [] (some (E.hex (writeHeader hdr))) with
-    | .err e => .err e
-    | .panic p => .panic p
-    | .ok sig => .ok ⟨⟨lead, sig, hdr⟩, payload⟩
+def build (E : Env) (c : Cfg) (fes : List (FileE × Bytes)) : Out Package := do
+  let (lead, hdr, payload) ← prepareData E c fes
+  let sig ← Sign.sigBuilderBuild (fun _ => none) id [] (some (E.hex (writeHeader hdr)))
+  pure ⟨⟨lead, sig, hdr⟩, payload⟩
 
 /-- `PackageBuilder::build_and_sign(signer)`: `Timestamp::now()` (clock reading `clock0`), the clamp against the source date,
 `build()`, then `sign_with_timestamp` (`Sign.signOpE`, a `Timestamp` argument converts to itself) -/
 def buildAndSign (E : Env) (clock0 : Timestamp.Instant) (S : Sign.SigScheme) (pubAlg : Bytes → Option Nat)
-    (signer : Bytes → Nat → Out Bytes) (c : Cfg) (fes : List (FileE × Bytes)) : Out Package :=
-  match (Timestamp.now clock0).toOut with
-  | .err e => .err e
-  | .panic p => .panic p
-  | .ok now =>
-    match build E c fes with
-    | .err e => .err e
-    | .panic p => .panic p
-    | .ok pkg => Sign.signOpE S pubAlg E.sha256 signer (.secs (clampNow c.sourceDate now)) pkg
+    (signer : Bytes → Nat → Out Bytes) (c : Cfg) (fes : List (FileE × Bytes)) : Out Package := do
+  let now ← (Timestamp.now clock0).toOut
+  let pkg ← build E c fes
+  Sign.signOpE S pubAlg E.sha256 signer (.secs (clampNow c.sourceDate now)) pkg
 
 /-! ## calls, then `build()` -/
 
 /-- `PackageBuilder::new(..).<calls>.build()` -/
-def buildCalls (E : Env) (valid : Bytes → Bool) (s0 : St) (calls : List Call) : Out Package :=
-  match run E.hex valid calls s0 with
-  | .err e => .err e
-  | .panic p => .panic p
-  | .ok s => build E s.cfg s.fes
+def buildCalls (E : Env) (valid : Bytes → Bool) (s0 : St) (calls : List Call) : Out Package := do
+  let s ← run E.hex valid calls s0
+  build E s.cfg s.fes
 
 end RpmVerif.Build
